@@ -7,6 +7,7 @@ import (
 	"bytes"
 	"encoding/json"
 	"fmt"
+	"net"
 	"net/http"
 	"net/http/httptest"
 	"os"
@@ -897,6 +898,7 @@ func c20MixTransport(cs *c20Case, obs *c20Obs) {
 		return
 	}
 	r := NewRng(cs.Seed)
+	c20BulkFailures(cs, obs, r, body.Bytes())
 	for round := 0; round < cs.Rounds && !c20Enough(obs); round++ {
 		nIns, nSec := 1+r.Intn(3), 1+r.Intn(4)
 		var ins, mixed []string
@@ -988,5 +990,136 @@ func c20AssignPhase(cs *c20Case, obs *c20Obs, reader *c20Session, r *Rng) {
 			v = "minimum"
 		}
 		driver.SetVariableDefault(name, v)
+	}
+}
+
+// c20BulkFailures: ONE invocation fetches many URL sources at once through pprof's own fetcher —
+// a few good ones next to every failure kind in bulk (404, 500, pprof-style text error, garbage
+// body, truncated body, connection closed by the server, connection refused, slow body).  pprof
+// must report the failures and merge what it fetched: the result is the profile of the good
+// sources alone, and the invocation must END (a fetch that never returns — e.g. because failed
+// fetches leak the slots of a limiter — is a hang).
+func c20BulkFailures(cs *c20Case, obs *c20Obs, r *Rng, prof []byte) {
+	mux := http.NewServeMux()
+	mux.HandleFunc("/good", func(w http.ResponseWriter, _ *http.Request) { w.Write(prof) })
+	mux.HandleFunc("/slow", func(w http.ResponseWriter, _ *http.Request) {
+		for i := 0; i < len(prof); i += 1 + len(prof)/6 {
+			j := i + 1 + len(prof)/6
+			if j > len(prof) {
+				j = len(prof)
+			}
+			w.Write(prof[i:j])
+			if f, ok := w.(http.Flusher); ok {
+				f.Flush()
+			}
+			time.Sleep(15 * time.Millisecond)
+		}
+	})
+	mux.HandleFunc("/404", func(w http.ResponseWriter, _ *http.Request) { http.NotFound(w, nil) })
+	mux.HandleFunc("/500", func(w http.ResponseWriter, _ *http.Request) { http.Error(w, "boom", http.StatusInternalServerError) })
+	mux.HandleFunc("/pproferr", func(w http.ResponseWriter, _ *http.Request) {
+		w.Header().Set("X-Go-Pprof", "1")
+		w.Header().Set("Content-Type", "text/plain; charset=utf-8")
+		w.WriteHeader(http.StatusInternalServerError)
+		w.Write([]byte("profiling already in use"))
+	})
+	mux.HandleFunc("/garbage", func(w http.ResponseWriter, _ *http.Request) {
+		w.Write([]byte("this is not a profile at all \x00\x01\x02"))
+	})
+	mux.HandleFunc("/truncated", func(w http.ResponseWriter, _ *http.Request) { w.Write(prof[:len(prof)/2]) })
+	mux.HandleFunc("/closed", func(w http.ResponseWriter, _ *http.Request) {
+		if hj, ok := w.(http.Hijacker); ok {
+			if c, _, err := hj.Hijack(); err == nil {
+				c.Close()
+			}
+		}
+	})
+	srv := httptest.NewServer(mux)
+	defer srv.Close()
+	// a port nobody listens on: connection refused
+	refused := "http://127.0.0.1:1/x"
+	if l, err := net.Listen("tcp", "127.0.0.1:0"); err == nil {
+		refused = "http://" + l.Addr().String() + "/x"
+		l.Close()
+	}
+	run := func(sources []string) (string, []string, error) {
+		w, ui := newC20Writer(), newC20UI()
+		o := &plugin.Options{
+			Flagset: c20Flags{args: sources, bools: map[string]bool{"proto": true},
+				strings: map[string]string{"output": "out", "symbolize": "none"}, ints: map[string]int{"timeout": 10}},
+			Sym: c20NoSym{}, Obj: c20NoObj{}, UI: ui, Writer: w,
+		}
+		if err := driver.PProf(o); err != nil {
+			return "", ui.messages(), err
+		}
+		b, ok := w.get("out")
+		if !ok {
+			return "", ui.messages(), fmt.Errorf("no output written")
+		}
+		p, err := profile.ParseData(b)
+		if err != nil {
+			return "", ui.messages(), err
+		}
+		return Canon(p), ui.messages(), nil
+	}
+	bad := []string{"/404", "/500", "/pproferr", "/garbage", "/truncated", "/closed"}
+	rounds := 1 + cs.Rounds/4
+	for round := 0; round < rounds && !c20Enough(obs); round++ {
+		nGood := 2 + r.Intn(3)
+		var good, all []string
+		for i := 0; i < nGood; i++ {
+			g := srv.URL + "/good"
+			if i%2 == 1 {
+				g = srv.URL + "/slow"
+			}
+			good = append(good, g)
+		}
+		all = append(all, good...)
+		// every failure kind at least 18 times (more than any plausible per-process limit of 16)
+		for _, b := range bad {
+			for i := 0; i < 18+r.Intn(4); i++ {
+				all = append(all, srv.URL+b)
+			}
+		}
+		for i := 0; i < 18; i++ {
+			all = append(all, refused)
+		}
+		for i := len(all) - 1; i > 0; i-- { // shuffle
+			j := r.Intn(i + 1)
+			all[i], all[j] = all[j], all[i]
+		}
+		want, _, err := run(good)
+		if err != nil {
+			obs.Error = "good URL sources alone: " + err.Error()
+			return
+		}
+		type res struct {
+			got  string
+			msgs []string
+			err  error
+		}
+		done := make(chan res, 1)
+		go func() {
+			var x res
+			x.got, x.msgs, x.err = run(all)
+			done <- x
+		}()
+		c20Fl.total.Add(1)
+		c20Fl.overlapped.Add(1)
+		obs.hit(fmt.Sprintf("bulk-%d-sources-%d-good", len(all), nGood))
+		select {
+		case x := <-done:
+			c20Fl.progress.Add(1)
+			switch {
+			case x.err != nil:
+				obs.fail("C20/fetch/bulk-error", "fetching %d URL sources (%d good, the rest failing in every way) failed as a whole: %v", len(all), nGood, x.err)
+			case x.got != want:
+				obs.fail("C20/fetch/bulk-result-differs", "fetching %d good URL sources together with %d failing ones gives a profile different from the good ones alone", nGood, len(all)-nGood)
+			}
+		case <-time.After(45 * time.Second):
+			c20Fl.progress.Add(1)
+			obs.fail("C20/fetch/hang", "one invocation fetching %d URL sources (%d good; 404, 500, text error, garbage, truncated, closed connection and refused connection ≥18 times each) did not finish within 45 s; every single fetch ends within a second when made alone", len(all), nGood)
+			return
+		}
 	}
 }
